@@ -64,7 +64,15 @@ def main():
             rc1, o1 = sh(["cargo", "test", "--offline", "--test", name], clean, e1)
             rc2, o2 = sh(["cargo", "test", "--offline", "--test", name], mut, e)
             out["demo_passes_without_patch"] = rc1 == 0
-            out["demo_fails_with_patch"] = rc2 != 0 and "test result: FAILED" in o2
+            # a demo "fails" when a test fails or when it no longer compiles against the changed crate (compile-time properties)
+            out["demo_fails_with_patch"] = rc2 != 0 and ("test result: FAILED" in o2 or "error" in o2)
+            if rc2 == 0:
+                # some changes only show in a build without debug assertions: try the release profile as well
+                rc1r, _ = sh(["cargo", "test", "--offline", "--release", "--test", name], clean, e1)
+                rc2r, o2r = sh(["cargo", "test", "--offline", "--release", "--test", name], mut, e)
+                if rc1r == 0 and rc2r != 0 and "test result: FAILED" in o2r:
+                    out["demo_fails_with_patch"] = True
+                    out["demo_fails_only_in_release_profile"] = True
             if rc1 != 0:
                 out["demo_clean_output"] = o1[-600:]
             # remove the demo again so the checks see only the src change
